@@ -154,6 +154,25 @@ class Opaque:
         return f"Opaque({self.what})"
 
 
+class KeyList(list):
+    """dict.keys(): iterates like a list (snapshot), compares and combines like a set"""
+    __hash__ = None
+
+    def __eq__(self, other):
+        return isinstance(other, (set, frozenset, KeyList)) and set(self) == set(other)
+
+    def __ne__(self, other):
+        return not self.__eq__(other)
+
+    def __and__(self, o): return set(self) & set(o)
+    def __or__(self, o): return set(self) | set(o)
+    def __sub__(self, o): return set(self) - set(o)
+    def __xor__(self, o): return set(self) ^ set(o)
+    __rand__, __ror__, __rxor__ = __and__, __or__, __xor__
+    def __rsub__(self, o): return set(o) - set(self)
+    def isdisjoint(self, o): return set(self).isdisjoint(o)
+
+
 class ExtModule:
     def __init__(self, name):
         self.name = name
@@ -214,6 +233,7 @@ class Interp:
         self.log: list[LogRecord] = []
         self.stack: list[str] = []
         self.hooks = {}             # name -> python callable overriding a resolved external
+        self._const_cache = {}
         self.method_hooks = {}      # qualified repo function -> python callable(interp, args, kwargs) replacing its body
         self.current_node = None
         self.handling: list[PyRaise] = []
@@ -534,7 +554,7 @@ class Interp:
                     if f.is_classmethod:
                         return ClsMethod(v.cls, f)
                     return Bound(v, f)
-                return self.eval(r[1], Frame({}, self.p.modules[r[2].module], r[2], None))
+                return self.const_value(r[1], Frame({}, self.p.modules[r[2].module], r[2], None))
             if name == "__class__":
                 return v.cls
             if name == "__dict__":
@@ -556,7 +576,7 @@ class Interp:
                         return ClsMethod(v, f)
                     return f
                 if r[0] == "const":
-                    return self.eval(r[1], Frame({}, self.p.modules[r[2].module], r[2], None))
+                    return self.const_value(r[1], Frame({}, self.p.modules[r[2].module], r[2], None))
             if name == "__name__":
                 return v.name
             if name == "model_fields" and v.is_pydantic:
@@ -596,7 +616,9 @@ class Interp:
                 return lambda it, _v=v: _v.join(str(x) for x in self.iterate(it))
             if isinstance(v, dict) and name == "get":
                 return lambda k, d=None, _v=v: _v.get(k, d)
-            if isinstance(v, dict) and name in ("items", "keys", "values"):
+            if isinstance(v, dict) and name == "keys":
+                return lambda _v=v: KeyList(_v.keys())
+            if isinstance(v, dict) and name in ("items", "values"):
                 return lambda _v=v, _n=name: list(getattr(_v, _n)())
             try:
                 return getattr(v, name)
@@ -1282,6 +1304,8 @@ class Interp:
             return False
         if isinstance(a, (AArr, SymScalar)) or isinstance(b, (AArr, SymScalar)):
             raise AnalysisAbort("== on array data")
+        if isinstance(a, KeyList) or isinstance(b, KeyList):
+            return a == b if isinstance(a, KeyList) else b == a
         if isinstance(a, (list, tuple)) and isinstance(b, (list, tuple)):
             if isinstance(a, tuple) != isinstance(b, tuple):
                 return False
@@ -1542,13 +1566,20 @@ class Interp:
             return b
         raise AnalysisAbort(f"unknown name {name} (line {getattr(node, 'lineno', '?')})")
 
+    def const_value(self, expr, fr):
+        """a module-level / class-level assignment is evaluated once (at import); a mutable value is therefore shared state"""
+        k = id(expr)
+        if k not in self._const_cache:
+            self._const_cache[k] = (expr, self.eval(expr, fr))
+        return self._const_cache[k][1]
+
     def resolved(self, r, name):
         if isinstance(r, (ClassInfo, FuncInfo)):
             return r
         if r[0] == "mod":
             return r[1]
         if r[0] == "const":
-            return self.eval(r[1], Frame({}, r[2], None, None))
+            return self.const_value(r[1], Frame({}, r[2], None, None))
         dotted = r[1]
         if dotted in self.hooks:
             return self.hooks[dotted]
